@@ -237,3 +237,35 @@ Theorem C18_aiger_syms_ok_needed :
             parse_aiger true (print_aag p) <> POk p.
 Proof. exact dup_file_not_reproducible. Qed.
 Print Assumptions C18_aiger_syms_ok_needed.
+
+(** ** DIMACS CNF reader (C18p): model of dimacs::parse for [p cnf] files without
+       variable order / clause tree options (IO/DimacsParse.v) *)
+From OxiVerif Require Import IO.DimacsParse IO.DimacsProofs.
+
+(** totality: a problem, a diagnostic or "SAT format" (not modelled) for ALL byte
+    strings; the fuel of the token loop (input length + 1) is never exhausted *)
+Theorem C18_dimacs_cnf_total : forall bs : list N, parse_cnf bs <> DFuel.
+Proof. exact parse_cnf_total. Qed.
+Print Assumptions C18_dimacs_cnf_total.
+
+(** round trip: a CNF printed by [print_cnf] (variables below [nvars], counts within
+    MAX_CAPACITY; clauses may be empty, unit, XOR) is read back as exactly the circuit
+    [cnf::parse] builds: one gate per clause with two or more literals, unit clauses
+    as literals, an AND gate over them as root; FALSE if some clause is empty, TRUE if
+    there is no clause *)
+Theorem C18_dimacs_cnf_roundtrip : forall nvars (clauses : list (bool * list (bool * N))),
+  (nvars <= max_capacity)%N /\ (lenN clauses <= max_capacity)%N /\
+  Forall (fun c => Forall (fun l : bool * N => (snd l < nvars)%N) (snd c)) clauses ->
+  parse_cnf (print_cnf nvars clauses) =
+  match map gate_of clauses with
+  | [] => DOk (mkDProblem nvars [] (ALConst true))
+  | gs => match retain gs 0 with
+          | None => DOk (mkDProblem nvars [] (ALConst false))
+          | Some (kept, cj) => DOk (mkDProblem nvars (kept ++ [(DAnd, cj)]) (ALGate false (lenN kept)))
+          end
+  end.
+Proof.
+  intros nvars clauses H. rewrite (parse_print_cnf nvars clauses H). unfold result_of.
+  destruct (map gate_of clauses); reflexivity.
+Qed.
+Print Assumptions C18_dimacs_cnf_roundtrip.
